@@ -1,6 +1,7 @@
 package props
 
 import (
+	"bytes"
 	"fmt"
 	"testing"
 	"unicode/utf8"
@@ -21,6 +22,13 @@ type C02Case struct {
 }
 
 func genC02(g gen.G) C02Case {
+	if g.Chance(12) {
+		// a configuration in HCL's JSON syntax with hand-made layout (blocks in array form)
+		d := genC19(g)
+		schema := d.Schema
+		return C02Case{World: m.WorldM{Paths: []m.PathM{{Path: "p0", Schema: &schema,
+			Files: []m.FileM{{Name: "main.tf.json", Text: gen.RenderJSONLayout(d.Items, d.Layout), JSON: true}}}}}}
+	}
 	if g.Chance(30) {
 		// a world in which references resolve: ranges derived from matched targets and origins
 		return C02Case{World: g.RefWorld(g.Int(1, 2), false)}
@@ -61,7 +69,9 @@ func analyseFile(name string, hf *hcl.File) *fileInfo {
 	fi := &fileInfo{src: hf.Bytes, astKeys: map[string]bool{}, badKeys: map[string]bool{}}
 	body, ok := hf.Body.(*hclsyntax.Body)
 	if !ok {
-		fi.posModel = false
+		// JSON: positions inside strings with escapes are reported relative to the unescaped
+		// string upstream (hashicorp/hcl#598); files without any escape are under the model
+		fi.posModel = oracle.PosModelOK(hf.Bytes, name) && utf8.Valid(hf.Bytes) && !bytes.Contains(hf.Bytes, []byte("\\"))
 		return fi
 	}
 	fi.native = true
